@@ -406,7 +406,7 @@ fn main() {
     ctx.prop_split("histories-f64-small", "fft-history", ctx.n(6_000, 1_000_000), ctx.parts(), case(0, 7, 12).boxed(), run_case);
     ctx.prop_split("histories-f64", "fft-history", ctx.n(1_200, 20_000), ctx.parts(), case(0, ctx.n(11, 14) as u32, 8).boxed(), run_case);
     ctx.prop_split("histories-f32", "fft-history", ctx.n(5_000, 800_000), ctx.parts(), case(1, 9, 12).boxed(), run_case);
-    ctx.prop("single-calls-f64", "fft-history", ctx.n(20_000, 3_000_000), case(0, 8, 1), run_case);
+    ctx.prop_split("single-calls-f64", "fft-history", ctx.n(20_000, 3_000_000), ctx.parts(), case(0, 8, 1).boxed(), run_case);
     // tables beyond 2^16 entries (then a small product on the same object): explicit histories, both profiles
     {
         let big = |len: u32, shape: u8, seed: u32| Poly { len, shape, seed };
